@@ -140,6 +140,9 @@ pub fn run(rep: &mut Report) {
         let m = *m;
         let reuse = mix(&[ci as u64, rep.seed, 0xC03]) % 2 == 0;
         let cell = if reuse { format!("{}/reused", cell) } else { cell };
+        // half of the cells stream the sets with repeated items (a set is what was streamed, however often)
+        let dups = (mix(&[ci as u64, rep.seed, 0xC03]) >> 9) % 2 == 0;
+        let cell = if dups { format!("{}/dups", cell) } else { cell };
         let (rs, trials) = staged(seed, tt, 3, &targets, |rng, out| {
             let (ids, _) = fresh_ids_distinct_hash(rng, n, kind);
             let mut a: Vec<u64> = ids[..s.a_only].to_vec();
@@ -147,6 +150,23 @@ pub fn run(rep: &mut Report) {
             let mut b: Vec<u64> = ids[s.a_only..].to_vec();
             shuffle(&mut a, rng);
             shuffle(&mut b, rng);
+            if dups {
+                // a: some items again right away and the first item once more at the end; b: a third of the items again, spread
+                let mut a2 = Vec::with_capacity(a.len() * 3 / 2 + 2);
+                for (i, x) in a.iter().enumerate() {
+                    a2.push(*x);
+                    if i % 3 == 0 {
+                        a2.push(*x);
+                    }
+                }
+                a2.push(a[0]);
+                a = a2;
+                let extra: Vec<u64> = b.iter().step_by(3).cloned().collect();
+                for x in extra {
+                    let p = rng.random_range(0..=b.len());
+                    b.insert(p, x);
+                }
+            }
             let (ba, bb) = if reuse {
                 // the reuse pattern recommended by the README: one sketcher, reinit between sets (after an unrelated first set)
                 let mut sk = make_usk(kind, m);
@@ -178,7 +198,7 @@ pub fn run(rep: &mut Report) {
             out[0] = x;
             out[1] = (x - j) * (x - j);
         });
-        let case = json!({"kind": kind.name(), "m": m, "shape": s.name, "a_only": s.a_only, "b_only": s.b_only, "both": s.both, "J": j, "one_sketcher_reused_with_reinit": reuse});
+        let case = json!({"kind": kind.name(), "m": m, "shape": s.name, "a_only": s.a_only, "b_only": s.b_only, "both": s.both, "J": j, "one_sketcher_reused_with_reinit": reuse, "streamed_with_repeated_items": dups});
         if ci < 2 {
             rep.sample(case.clone());
         }
